@@ -52,6 +52,11 @@ def separate_input_attributes_from_arguments(
     onnx_inputs = []
     onnx_attributes = collections.OrderedDict()
     has_variadic = False
+    # Number of placeholders (None) at the end of onnx_inputs that stand for omitted
+    # optional inputs. They keep a later input that is given by keyword in its own
+    # position (op.Clip(x, max=hi) is Clip(x, None, hi), not Clip(x, hi)); those that
+    # remain at the end are dropped again.
+    trailing_placeholders = 0
 
     for i, param in enumerate(op_signature.params):
         is_input = param.is_param()
@@ -60,17 +65,21 @@ def separate_input_attributes_from_arguments(
         if is_variadic:
             has_variadic = True
             # Exhaust all remaining args
+            if args[i:]:
+                trailing_placeholders = 0
             onnx_inputs.extend(args[i:])
             args = []
             continue
         if i < len(args):
             if is_input:
                 onnx_inputs.append(args[i])
+                trailing_placeholders = 0
             else:
                 onnx_attributes[param.name] = args[i]
         elif param.name in kwargs:
             if is_input:
                 onnx_inputs.append(kwargs[param.name])
+                trailing_placeholders = 0
             else:
                 onnx_attributes[param.name] = kwargs[param.name]
         elif isinstance(param, ir.schemas.AttributeParameter) and param.has_default():
@@ -80,6 +89,13 @@ def separate_input_attributes_from_arguments(
                 onnx_attributes[param.name] = param.default.value
         elif param.required:
             raise TypeError(f"Required input '{param}' was not provided")
+        elif is_input:
+            # An optional input that was omitted
+            onnx_inputs.append(None)
+            trailing_placeholders += 1
+
+    if trailing_placeholders:
+        del onnx_inputs[-trailing_placeholders:]
 
     if not allow_extra_args and not has_variadic and len(args) > len(op_signature.params):
         raise TypeError(
